@@ -129,9 +129,19 @@ def gen_definition_lines(rng, n_units=18):
         nm = f"b{i}unit"
         lines.append(f"{nm} = {d} = b{i}" + (f" = base{i}" if rng.random() < 0.5 else ""))
         base.append(nm)
-    lines.append(f"[speedlike] = {dims[0]} / {dims[1]}")
+    # derived dimensions, possibly declared top-down (a derived dimension before the one it refers to),
+    # and units declared directly on a derived dimension
+    ddims = [f"[speedlike] = {dims[0]} / {dims[1]}", f"[accel] = [speedlike] / {dims[1]}"]
     if len(dims) > 2:
-        lines.append(f"[forcelike] = [speedlike] * {dims[2]} / {dims[1]}")
+        ddims.append(f"[forcelike] = [accel] * {dims[2]}")
+        ddims.append("[presslike] = [forcelike] / " + dims[0] + " ** 2")
+    rng.shuffle(ddims)
+    dunits = [f"gal_x = [accel] = Gx", f"speed_x = [speedlike]"]
+    if len(dims) > 2 and rng.random() < 0.7:
+        dunits.append("press_x = [presslike] = Px")
+    mix = ddims + dunits
+    rng.shuffle(mix)
+    lines += mix
     lines.append("plain = []")
     names = list(base)
     defs = []
@@ -228,6 +238,22 @@ def generated_stream(ck, rng, n_regs, oracle, tag):
                 c = rng.choice([n for n in sp if dims.get(ureg.get_name(n)) == dims.get(ca)])
                 oracle(ureg.convert(ureg.convert(F(3), a, c), c, b) == ureg.convert(F(3), a, b), f"generated:{tag}:path", "generated registry: a->c->b differs from a->b", dict(rp, c=c))
             ck.case(key=("gen", tag, gi, a, b), sample={"generated_registry_lines": lines[:8]} if gi == 0 and _ == 0 else None)
+        # units declared on derived dimensions: what the file says, independent of the order of the declarations
+        written = {"gal_x": ({"b0unit": 1, "b1unit": -2}, "[accel]"), "speed_x": ({"b0unit": 1, "b1unit": -1}, "[speedlike]"),
+                   "press_x": ({"b2unit": 1, "b0unit": -1, "b1unit": -2}, "[presslike]")}
+        for nm, (expansion, dname) in written.items():
+            if nm not in ureg:
+                continue
+            rp = {"definitions": lines, "unit": nm}
+            try:
+                x = ureg.convert(F(1), nm, mkuc(ureg, {k: F(v) for k, v in expansion.items()}))
+            except Exception as e:
+                x = type(e).__name__
+            oracle(x == 1, f"generated:{tag}:derived-dimension", f"generated registry: 1 {nm} -> {expansion} gave {x}; the file declares {nm} on {dname}", rp)
+            q = ureg.Quantity(F(1), mkuc(ureg, {k: F(v) for k, v in expansion.items()}))
+            oracle(q.check(dname) and ureg.Quantity(F(1), nm).check(dname), f"generated:{tag}:derived-dimension-check",
+                   f"generated registry: check({dname!r}) is False for a quantity of that dimension", rp)
+            cases.append(case_factor(ureg, {nm: F(1)}, {k: F(v) for k, v in expansion.items()})); desc.append({"factor": [nm, str(expansion)]})
         bad = ck.coq_mismatches(f"gen{tag}{gi}", gen_header(raw), cases, "ok")
         total += len(cases)
         if bad is None:
